@@ -53,19 +53,19 @@ func vhExpiring(f map[string]interface{}, enc int, t0 int64) (bool, int64) {
 
 // VH_C07_fact: a fact with an expiry; obs 0 Get, 1 Search; reload 0/1.
 func VH_C07_fact(kind, enc, reload, obs int) {
-	// carve-out of the open finding "relative ttl is what gets stored": see the witness
-	vassume(!vhStoredFormatCase(kind, enc, reload))
 	vhC07Fact(kind, enc, reload, obs)
 }
 
-// vhStoredFormatCase: the cases of the open finding "storage holds the caller's map, not
-// the prepared fact": a relative ttl (both states) or an RFC3339 expires (linear state,
-// whose Load does not prepare facts) followed by a reload.
+// vhStoredFormatCase: the cases of the former finding "storage holds the caller's map, not
+// the prepared fact" (repaired in 73e02d4): a relative ttl (both states) or an RFC3339
+// expires (linear state, whose Load does not prepare facts) followed by a reload. The
+// main harnesses cover them now; the two harnesses below keep them as named regression
+// cases.
 func vhStoredFormatCase(kind, enc, reload int) bool {
 	return reload == 1 && (enc == 1 || enc == 2 || enc == 5 || (kind == 1 && enc == 3))
 }
 
-// VH_C07_witness_ttl_reload: such an item, reloaded, then observed (open finding).
+// VH_C07_witness_ttl_reload: such an item, reloaded, then observed.
 func VH_C07_witness_ttl_reload(kind, enc, obs int) {
 	vassume(vhStoredFormatCase(kind, enc, 1))
 	vhC07Fact(kind, enc, 1, obs)
@@ -118,7 +118,6 @@ func vhC07Fact(kind, enc, reload, obs int) {
 
 // VH_C07_rule: a rule with an expiry added through Location.AddRule; observed by dispatch.
 func VH_C07_rule(kind, enc, reload int) {
-	vassume(!vhStoredFormatCase(kind, enc, reload))
 	// Location.AddRule takes expires as a number only: an RFC3339 string (documented for
 	// facts) is refused with an error by the rule decoder, so that encoding is not a case
 	vassume(enc != 3)
